@@ -13,10 +13,7 @@ import CpProofs.C19Lemmas
 namespace CpProofs.C19
 open CpModel.Auth CpModel.Gen.C19
 
-/-- quoted-string escaping -/
-def escQ : Str → Str
-  | [] => []
-  | c :: cs => if c = '"' ∨ c = '\\' then '\\' :: c :: escQ cs else c :: escQ cs
+/- quoted-string escaping: `CpModel.Auth.escQ` (since the fix for F26 the server side uses it as well) -/
 
 /-- `k="esc(v)"` as the client writes it -/
 def item (k v : Str) : Str := k ++ '=' :: '"' :: (escQ v ++ ['"'])
